@@ -1079,8 +1079,51 @@ def check_C15(ctx):
                      "TLC (KeyOrderTrace.tla) judges each record. distinct_nontrivial = ordered pairs + separators")
 
 
+def check_C11(ctx):
+    build()
+    st = run_crash(ctx, tiered(ctx, 10, 100), tiered(ctx, 140, 300), extra=["--second-every", str(tiered(ctx, 31, 7))])
+    run_kv_walk(ctx, "reopen", tiered(ctx, 24, 240), tiered(ctx, 500, 1500), page_sizes="512,1024,4096", caches="1048576,0")
+    run_kv_walk(ctx, "reopen", tiered(ctx, 6, 60), 800, page_sizes="512", caches="1048576", tag="reopen-regions", extra=["--region-size", "65536"], nkeys=200)
+    k = ctx.notes.get("event_kinds", {})
+    ctx.cov["distinct_nontrivial"] += k.get("reopen", 0) + k.get("integrity", 0)
+    if k.get("reopen", 0) < 100:
+        raise ToolError(f"vacuity: too few reopens: {k}")
+    ctx.assumptions += ["crash images per the storage model of C01; the accounting of the recovered database is taken on a sample of the images "
+                        "(every 31st in quick, every 7th in thorough), check_integrity() on all of them"]
+    return dict(level="fault_enumeration", exhaustive=False,
+                rule="every way of stopping a history (clean close; crash at every backend operation under 1PC / 2PC / quick-repair commits, with "
+                     "the crash images of C01; crash again during recovery) followed by an open: the recovered database must pass "
+                     "check_integrity() with Ok(true) and unchanged contents (every image); on sampled images the allocator state right after the "
+                     "open is projected and TLC requires alloc = exactly the pages owned by trees and pending-free records (Owner1 of "
+                     "PagerInv.tla - a stale or foreign allocation snapshot shows up as a leak or a double owner), and a transaction written "
+                     "after the recovery leaves all earlier contents intact; histories with frequent clean reopen and repeated "
+                     "check_integrity() judged by Kv.tla, with the same accounting after every open. distinct_nontrivial = distinct probe "
+                     "outcomes + reopen/integrity events")
+
+
+def check_C13(ctx):
+    build()
+    run_kv_walk(ctx, "compact", tiered(ctx, 30, 300), tiered(ctx, 600, 1500), page_sizes="512,1024,4096", caches="1048576,0")
+    run_kv_walk(ctx, "compact", tiered(ctx, 8, 80), tiered(ctx, 900, 2000), page_sizes="512", tag="compact-regions", extra=["--region-size", "65536"], nkeys=200)
+    k = dict(ctx.notes.get("event_kinds", {}))
+    run_crash(ctx, tiered(ctx, 8, 80), tiered(ctx, 150, 300), profile="crashcompact", tag="crash-compaction")
+    ctx.cov["distinct_nontrivial"] += k.get("compact", 0)
+    if k.get("compact", 0) < 40:
+        raise ToolError(f"vacuity: too few compactions: {k}")
+    ctx.assumptions += ["'bounded number of passes' is checked as: sync_data calls during one compact() <= 8 * (pages of the file + 8)"]
+    return dict(level="fault_enumeration", exhaustive=False,
+                rule="histories that fragment the file (inserts/deletes of values up to 5 pages, multimaps with subtrees, non-durable commits "
+                     "pending, one large region or many 64 KiB regions) interleaved with compact(): TLC (Kv!Compact) requires the refusal "
+                     "variants in their documented order, contents unchanged afterwards (every later read and the dump after reopen), the "
+                     "storage length not larger than before, the number of syncs bounded by the file size; page accounting after every "
+                     "transaction; and every crash image of every backend operation issued during compaction recovers to the unchanged "
+                     "contents (crash enumeration of C01 on compaction-heavy histories)")
+
+
 PROPS = {
     "C01": check_C01,
+    "C11": check_C11,
+    "C13": check_C13,
     "C15": check_C15,
     "C20": check_C20,
     "C08": check_C08,
